@@ -46,6 +46,10 @@ async fn work(ledger: Arc<Ledger>, slot: u32, sleep_ms: u8, paused: bool) -> u32
     slot
 }
 
+fn work_sync(ledger: &Arc<Ledger>, slot: u32) -> u32 { let g = Guard::start(ledger, slot); g.complete(); slot }
+type DynErr = Box<dyn std::error::Error + Send + Sync>;
+pub const EXEC_NAMES: [&str; 4] = ["futures", "fallible futures", "fallibles (synchronous)", "plain (synchronous)"];
+
 fn status_checks(who: &str, status: &str, start: u64, finish: u64, scheduled: bool, p: &mut Vec<(String, String)>) {
     let ok = status == "StreamEnded" || (status == "ProgrammaticallyEnded" && scheduled);
     if !ok { p.push(("status".into(), format!("{who}: the close callback found the executor in state {status}{}", if status == "ProgrammaticallyEnded" { " although it had not been scheduled to finish" } else { "" }))) }
@@ -74,7 +78,7 @@ fn direct(args: &Args, acc: &mut Acc, seed: u64, verbose: bool) {
 
 // ------------------------------------------------------------------------------------------------ uni
 
-async fn uni_case<C, D>(m: u32, limit: u32, events: Vec<u8>, paused: bool, ledger: Arc<Ledger>) -> (Vec<(String, String)>, u32)
+async fn uni_case<C, D>(m: u32, limit: u32, exec: u8, with_timeout: bool, events: Vec<u8>, paused: bool, ledger: Arc<Ledger>) -> (Vec<(String, String)>, u32)
 where C: FullDuplexUniChannel<ItemType = Tok, DerivedItemType = D> + Send + Sync + 'static, D: EvId + Send + Sync + std::fmt::Debug + 'static {
     let cb = Arc::new(CbLog::default());
     let at_callback: Arc<Mutex<Vec<(u32, u32, usize)>>> = Arc::new(Mutex::new(Vec::new()));       // (finished_executors_count, running streams, unfinished items)
@@ -87,7 +91,14 @@ where C: FullDuplexUniChannel<ItemType = Tok, DerivedItemType = D> + Send + Sync
     } };
     let ev = Arc::new(events.clone());
     let l1 = ledger.clone();
-    let uni = Uni::<Tok, C, I, D>::new("rmv-c12").spawn_futures_executors(limit, Duration::ZERO, move |s| { let (l, ev) = (l1.clone(), ev.clone()); s.map(move |d: D| { let e = d.ev(); work(l.clone(), e as u32, ev[e as usize], paused) }) }, on_close);
+    let fto = if with_timeout { Duration::from_secs(10) } else { Duration::ZERO };     // (a timeout that never fires: the executors' timeout branches)
+    let uni = Uni::<Tok, C, I, D>::new("rmv-c12");
+    let uni = match exec {
+        0 => uni.spawn_futures_executors(limit, fto, move |s| { let (l, ev) = (l1.clone(), ev.clone()); s.map(move |d: D| { let e = d.ev(); work(l.clone(), e as u32, ev[e as usize], paused) }) }, on_close),
+        1 => uni.spawn_executors(limit, fto, move |s| { let (l, ev) = (l1.clone(), ev.clone()); s.map(move |d: D| { let e = d.ev(); let f = work(l.clone(), e as u32, ev[e as usize], paused); async move { Ok::<u32, DynErr>(f.await) } }) }, |_e| async {}, on_close),
+        2 => uni.spawn_fallibles_executors(limit, move |s| { let l = l1.clone(); s.map(move |d: D| -> Result<u32, DynErr> { Ok(work_sync(&l, d.ev() as u32)) }) }, |_e| {}, on_close),
+        _ => uni.spawn_non_futures_non_fallibles_executors(limit, move |s| { let l = l1.clone(); s.map(move |d: D| work_sync(&l, d.ev() as u32)) }, on_close),
+    };
     *uni_slot.lock().unwrap() = Some(uni.clone());
     let mut accepted = 0u32;
     'sending: for e in 0..events.len() as u64 { let mut tries = 0; loop { if uni.send(Tok::make(e)).is_ok() { accepted += 1; break } tries += 1; if tries > 40 { break 'sending } tokio::time::sleep(Duration::from_millis(1)).await } }
@@ -110,7 +121,7 @@ where C: FullDuplexUniChannel<ItemType = Tok, DerivedItemType = D> + Send + Sync
 
 // ------------------------------------------------------------------------------------------------ multi
 
-async fn multi_case<C, D>(pipelines: usize, limit: u32, events: Vec<u8>, cancel_after: usize, paused: bool, ledger: Arc<Ledger>) -> Vec<(String, String)>
+async fn multi_case<C, D>(pipelines: usize, limit: u32, execs: Vec<u8>, with_timeout: bool, events: Vec<u8>, cancel_after: usize, paused: bool, ledger: Arc<Ledger>) -> Vec<(String, String)>
 where C: FullDuplexMultiChannel<ItemType = Tok, DerivedItemType = D> + Send + Sync + 'static, D: EvId + Send + Sync + std::fmt::Debug + 'static {
     static SEQ: AtomicU64 = AtomicU64::new(0);
     let name = format!("rmv-c12-{}-{}", std::process::id(), SEQ.fetch_add(1, SeqCst));
@@ -122,8 +133,14 @@ where C: FullDuplexMultiChannel<ItemType = Tok, DerivedItemType = D> + Send + Sy
     for pl in 0..pipelines {
         let (cb2, l2, l1, ev) = (cb.clone(), ledger.clone(), ledger.clone(), ev.clone());
         let who = format!("pipeline {pl}");
-        multi.spawn_futures_executor(limit, Duration::ZERO, format!("pipeline {pl}"), move |s| s.map(move |d: D| { let e = d.ev(); work(l1.clone(), (pl * ne) as u32 + e as u32, ev[e as usize], paused) }),
-            move |stats: Arc<dyn StreamExecutorStats + Send + Sync>| async move { cb2.record(&who, &stats, &l2) }).await.expect("spawn");
+        let fto = if with_timeout { Duration::from_secs(10) } else { Duration::ZERO };
+        let on_close = move |stats: Arc<dyn StreamExecutorStats + Send + Sync>| async move { cb2.record(&who, &stats, &l2) };
+        match execs[pl] {
+            0 => multi.spawn_futures_executor(limit, fto, format!("pipeline {pl}"), move |s| s.map(move |d: D| { let e = d.ev(); work(l1.clone(), (pl * ne) as u32 + e as u32, ev[e as usize], paused) }), on_close).await,
+            1 => multi.spawn_executor(limit, fto, format!("pipeline {pl}"), move |s| s.map(move |d: D| { let e = d.ev(); let f = work(l1.clone(), (pl * ne) as u32 + e as u32, ev[e as usize], paused); async move { Ok::<u32, DynErr>(f.await) } }), |_e| async {}, on_close).await,
+            2 => multi.spawn_fallibles_executor(limit, format!("pipeline {pl}"), move |s| s.map(move |d: D| -> Result<u32, DynErr> { Ok(work_sync(&l1, (pl * ne) as u32 + d.ev() as u32)) }), |_e| {}, on_close).await,
+            _ => multi.spawn_non_futures_non_fallible_executor(limit, format!("pipeline {pl}"), move |s| s.map(move |d: D| work_sync(&l1, (pl * ne) as u32 + d.ev() as u32)), on_close).await,
+        }.expect("spawn");
     }
     let mut p = Vec::new();
     for e in 0..ne as u64 {
@@ -156,7 +173,7 @@ where C: FullDuplexMultiChannel<ItemType = Tok, DerivedItemType = D> + Send + Sy
 
 // ------------------------------------------------------------------------------------------------ sequential transition (log channel)
 
-async fn sequential_case(sequential: bool, limit: u32, olds: Vec<u8>, news: Vec<u8>, paused: bool, ledger: Arc<Ledger>) -> Vec<(String, String)> {
+async fn sequential_case(sequential: bool, limit: u32, exec: u8, with_timeout: bool, olds: Vec<u8>, news: Vec<u8>, paused: bool, ledger: Arc<Ledger>) -> Vec<(String, String)> {
     static SEQ: AtomicU64 = AtomicU64::new(0);
     let name = format!("rmv-c12s-{}-{}", std::process::id(), SEQ.fetch_add(1, SeqCst));
     let multi = Arc::new(Multi::<Tok, ChannelMultiMmapLog<Tok, 4>, I, &'static Tok>::new(name.clone()));
@@ -168,11 +185,25 @@ async fn sequential_case(sequential: bool, limit: u32, olds: Vec<u8>, news: Vec<
     let (l1, l2, a1, a2) = (ledger.clone(), ledger.clone(), all.clone(), all.clone());
     let (cbo, cbn, lo, ln) = (cb.clone(), cb.clone(), ledger.clone(), ledger.clone());
     let started_new = Arc::new(AtomicU32::new(0));
-    multi.spawn_futures_oldies_executor(limit, sequential, Duration::ZERO,
-        "oldies", move |s| s.map(move |d: &'static Tok| { let e = d.id; work(l1.clone(), e as u32, a1[e as usize], paused) }),
-        move |stats: Arc<dyn StreamExecutorStats + Send + Sync>| async move { cbo.record("oldies", &stats, &lo) },
-        "newies", move |s| s.map(move |d: &'static Tok| { let e = d.id; work(l2.clone(), e as u32, a2[e as usize], paused) }),
-        move |stats: Arc<dyn StreamExecutorStats + Send + Sync>| async move { cbn.record("newies", &stats, &ln) }).await.expect("spawn");
+    let fto = if with_timeout { Duration::from_secs(10) } else { Duration::ZERO };
+    let close_o = move |stats: Arc<dyn StreamExecutorStats + Send + Sync>| async move { cbo.record("oldies", &stats, &lo) };
+    let close_n = move |stats: Arc<dyn StreamExecutorStats + Send + Sync>| async move { cbn.record("newies", &stats, &ln) };
+    match exec {
+        0 => multi.spawn_futures_oldies_executor(limit, sequential, fto,
+                "oldies", move |s| s.map(move |d: &'static Tok| { let e = d.id; work(l1.clone(), e as u32, a1[e as usize], paused) }), close_o,
+                "newies", move |s| s.map(move |d: &'static Tok| { let e = d.id; work(l2.clone(), e as u32, a2[e as usize], paused) }), close_n).await,
+        1 => multi.spawn_oldies_executor(limit, sequential, fto,
+                "oldies", move |s| s.map(move |d: &'static Tok| { let e = d.id; let f = work(l1.clone(), e as u32, a1[e as usize], paused); async move { Ok::<u32, DynErr>(f.await) } }), close_o,
+                "newies", move |s| s.map(move |d: &'static Tok| { let e = d.id; let f = work(l2.clone(), e as u32, a2[e as usize], paused); async move { Ok::<u32, DynErr>(f.await) } }), close_n,
+                |_e| async {}).await,
+        2 => multi.spawn_fallibles_oldies_executor(limit, sequential,
+                "oldies", move |s| s.map(move |d: &'static Tok| -> Result<u32, DynErr> { Ok(work_sync(&l1, d.id as u32)) }), close_o,
+                "newies", move |s| s.map(move |d: &'static Tok| -> Result<u32, DynErr> { Ok(work_sync(&l2, d.id as u32)) }), close_n,
+                |_e| {}).await,
+        _ => multi.spawn_non_futures_non_fallible_oldies_executor(limit, sequential,
+                "oldies", move |s| s.map(move |d: &'static Tok| work_sync(&l1, d.id as u32)), close_o,
+                "newies", move |s| s.map(move |d: &'static Tok| work_sync(&l2, d.id as u32)), close_n).await,
+    }.expect("spawn");
     for e in no as u64..(no + nn) as u64 { let _ = multi.send(Tok::make(e)); if e % 2 == 0 { tokio::task::yield_now().await } }
     let _ = started_new;
     // let the old stream run dry and the transition happen, then close
@@ -212,19 +243,21 @@ fn others(args: &Args, acc: &mut Acc, seed: u64, verbose: bool) {
     let paused = rt == Rt::CurrentPaused;
     let limit = 1 + rng.below(4) as u32;
     let wd = Duration::from_secs(60);
+    let with_timeout = rng.chance(1, 3);
     let which = match args.get("workload") { Some("uni") => 0, Some("multi") => 1, Some("sequential") => 2, _ => rng.below(3) };
     acc.evaluations += 1;
     match which {
         0 => {
             let m = *rng.pick(&[1u32, 2, 4]);
             let kind = *rng.pick(&["uni.movable.full_sync", "uni.movable.atomic", "uni.zero_copy.atomic"]);
+            let exec = rng.below(4) as u8;
             let events: Vec<u8> = (0..rng.below(N as u64 + 1)).map(|_| rng.below(6) as u8).collect();
             let ledger = Ledger::new(events.len());
             let (ev, l) = (events.clone(), ledger.clone());
-            macro_rules! go { ($ch:ident, $d:ty) => { match m { 1 => tk::run(rt, wd, move || uni_case::<$ch<Tok, N, 1>, $d>(1, limit, ev, paused, l)), 2 => tk::run(rt, wd, move || uni_case::<$ch<Tok, N, 2>, $d>(2, limit, ev, paused, l)), _ => tk::run(rt, wd, move || uni_case::<$ch<Tok, N, 4>, $d>(4, limit, ev, paused, l)) } } }
+            macro_rules! go { ($ch:ident, $d:ty) => { match m { 1 => tk::run(rt, wd, move || uni_case::<$ch<Tok, N, 1>, $d>(1, limit, exec, with_timeout, ev, paused, l)), 2 => tk::run(rt, wd, move || uni_case::<$ch<Tok, N, 2>, $d>(2, limit, exec, with_timeout, ev, paused, l)), _ => tk::run(rt, wd, move || uni_case::<$ch<Tok, N, 4>, $d>(4, limit, exec, with_timeout, ev, paused, l)) } } }
             let r = match kind { "uni.movable.full_sync" => go!(ChannelUniMoveFullSync, Tok), "uni.movable.atomic" => go!(ChannelUniMoveAtomic, Tok), _ => go!(ChannelUniZeroCopyAtomic, OgreUnique<Tok, AllocatorAtomicArray<Tok, N>>) };
-            acc.count(&format!("uni_runs[M={m}]"), 1);
-            let cfg = J::obj().with("channel", J::s(kind)).with("MAX_STREAMS", J::i(m as i64)).with("concurrency_limit", J::i(limit as i64)).with("runtime", J::s(rt.describe())).with("per_event_sleep", J::s(format!("{:?}", events)));
+            acc.count(&format!("uni_runs[M={m}]"), 1); acc.count(&format!("uni_runs[executor: {}]", EXEC_NAMES[exec as usize]), 1);
+            let cfg = J::obj().with("executor", J::s(EXEC_NAMES[exec as usize])).with("futures_timeout_set", J::Bool(with_timeout)).with("channel", J::s(kind)).with("MAX_STREAMS", J::i(m as i64)).with("concurrency_limit", J::i(limit as i64)).with("runtime", J::s(rt.describe())).with("per_event_sleep", J::s(format!("{:?}", events)));
             match r { None => { acc.inconclusive += 1; acc.count("inconclusive_watchdog", 1) } Some((p, _acc)) => { acc.nontrivial(mix(seed, m as u64)); acc.sample(2, || cfg.clone()); report(args, acc, seed, verbose, "uni", cfg, p) } }
         }
         1 => {
@@ -232,16 +265,18 @@ fn others(args: &Args, acc: &mut Acc, seed: u64, verbose: bool) {
             let pipelines = 2 + rng.below(2) as usize;
             let events: Vec<u8> = (0..rng.below(N as u64)).map(|_| rng.below(5) as u8).collect();
             let cancel_after = rng.below(events.len() as u64 + 2) as usize;
+            let execs: Vec<u8> = (0..pipelines).map(|_| rng.below(4) as u8).collect();
+            let ex2 = execs.clone();
             let ledger = Ledger::new(events.len() * pipelines);
             let (ev, l) = (events.clone(), ledger.clone());
             let r = match kind {
-                "multi.arc.full_sync" => tk::run(rt, wd, move || multi_case::<ChannelMultiArcFullSync<Tok, N, 4>, Arc<Tok>>(pipelines, limit, ev, cancel_after, paused, l)),
-                "multi.arc.crossbeam" => tk::run(rt, wd, move || multi_case::<ChannelMultiArcCrossbeam<Tok, N, 4>, Arc<Tok>>(pipelines, limit, ev, cancel_after, paused, l)),
-                "multi.ogre_arc.atomic" => tk::run(rt, wd, move || multi_case::<ChannelMultiOgreArcAtomic<Tok, N, 4>, OgreArc<Tok, AllocatorAtomicArray<Tok, N>>>(pipelines, limit, ev, cancel_after, paused, l)),
-                _ => tk::run(rt, wd, move || multi_case::<ChannelMultiMmapLog<Tok, 4>, &'static Tok>(pipelines, limit, ev, cancel_after, paused, l)),
+                "multi.arc.full_sync" => tk::run(rt, wd, move || multi_case::<ChannelMultiArcFullSync<Tok, N, 4>, Arc<Tok>>(pipelines, limit, ex2, with_timeout, ev, cancel_after, paused, l)),
+                "multi.arc.crossbeam" => tk::run(rt, wd, move || multi_case::<ChannelMultiArcCrossbeam<Tok, N, 4>, Arc<Tok>>(pipelines, limit, ex2, with_timeout, ev, cancel_after, paused, l)),
+                "multi.ogre_arc.atomic" => tk::run(rt, wd, move || multi_case::<ChannelMultiOgreArcAtomic<Tok, N, 4>, OgreArc<Tok, AllocatorAtomicArray<Tok, N>>>(pipelines, limit, ex2, with_timeout, ev, cancel_after, paused, l)),
+                _ => tk::run(rt, wd, move || multi_case::<ChannelMultiMmapLog<Tok, 4>, &'static Tok>(pipelines, limit, ex2, with_timeout, ev, cancel_after, paused, l)),
             };
-            acc.count("multi_runs", 1);
-            let cfg = J::obj().with("channel", J::s(kind)).with("pipelines", J::i(pipelines as i64)).with("concurrency_limit", J::i(limit as i64)).with("runtime", J::s(rt.describe())).with("per_event_sleep", J::s(format!("{:?}", events))).with("pipeline_0_removed_before_event", J::i(cancel_after as i64));
+            acc.count("multi_runs", 1); for e in &execs { acc.count(&format!("multi_pipelines[executor: {}]", EXEC_NAMES[*e as usize]), 1) }
+            let cfg = J::obj().with("executors", J::s(format!("{:?}", execs.iter().map(|e| EXEC_NAMES[*e as usize]).collect::<Vec<_>>()))).with("futures_timeout_set", J::Bool(with_timeout)).with("channel", J::s(kind)).with("pipelines", J::i(pipelines as i64)).with("concurrency_limit", J::i(limit as i64)).with("runtime", J::s(rt.describe())).with("per_event_sleep", J::s(format!("{:?}", events))).with("pipeline_0_removed_before_event", J::i(cancel_after as i64));
             match r { None => { acc.inconclusive += 1; acc.count("inconclusive_watchdog", 1) } Some(p) => { acc.nontrivial(mix(seed, 77)); acc.sample(2, || cfg.clone()); report(args, acc, seed, verbose, "multi", cfg, p) } }
         }
         _ => {
@@ -250,9 +285,11 @@ fn others(args: &Args, acc: &mut Acc, seed: u64, verbose: bool) {
             let news: Vec<u8> = (0..rng.below(8)).map(|_| rng.below(6) as u8).collect();
             let ledger = Ledger::new(olds.len() + news.len());
             let (o, n, l) = (olds.clone(), news.clone(), ledger.clone());
-            let r = tk::run(rt, wd, move || sequential_case(sequential, limit, o, n, paused, l));
+            let exec = rng.below(4) as u8;
+            let r = tk::run(rt, wd, move || sequential_case(sequential, limit, exec, with_timeout, o, n, paused, l));
+            acc.count(&format!("sequential_transition_runs[executor: {}]", EXEC_NAMES[exec as usize]), 1);
             acc.count(if sequential { "sequential_transition_runs[on]" } else { "sequential_transition_runs[off]" }, 1);
-            let cfg = J::obj().with("channel", J::s("multi.mmap_log")).with("sequential_transition", J::Bool(sequential)).with("concurrency_limit", J::i(limit as i64)).with("runtime", J::s(rt.describe())).with("old_events_sleep", J::s(format!("{:?}", olds))).with("new_events_sleep", J::s(format!("{:?}", news)));
+            let cfg = J::obj().with("executor", J::s(EXEC_NAMES[exec as usize])).with("futures_timeout_set", J::Bool(with_timeout)).with("channel", J::s("multi.mmap_log")).with("sequential_transition", J::Bool(sequential)).with("concurrency_limit", J::i(limit as i64)).with("runtime", J::s(rt.describe())).with("old_events_sleep", J::s(format!("{:?}", olds))).with("new_events_sleep", J::s(format!("{:?}", news)));
             match r { None => { acc.inconclusive += 1; acc.count("inconclusive_watchdog", 1) } Some(p) => { if !olds.is_empty() && !news.is_empty() { acc.nontrivial(mix(seed, 99)) } acc.sample(2, || cfg.clone()); report(args, acc, seed, verbose, "sequential", cfg, p) } }
         }
     }
